@@ -145,6 +145,10 @@ class StubSim(mosaik_api_v3.Simulator):
             nxt = None if d is None else time + d
         else:
             nxt = time + sp.get("step", 1)
+        if sp.get("adaptive") and max_advance is not None:
+            # an adaptive simulator: its next step is the first time mosaik does not vouch for
+            # (compliant as long as mosaik never hands out a max_advance below the step's time)
+            nxt = max_advance + 1
         bad = (sp.get("bad_next") or {}).get(str(k))
         if bad is not None:
             nxt = self._bad_value(bad, time, nxt)
